@@ -832,3 +832,35 @@ package actor
 //@   ensures  result.1 == nil ==> forall k mathint :: k != 2 * tagof("*vivid.OnLaunch") + 1 && k != kKill(true) ==> gcount(told, result.0, k) == old(gcount(told, result.0, k))
 //@   ensures  result.1 == nil && old(c.state) != 1 ==> gcount(told, result.0, kKill(true)) == old(gcount(told, result.0, kKill(true)))
 //@   ensures  result.1 == nil ==> refPath(result.0) in c.children && c.children[refPath(result.0)] == result.0
+
+// ---------------------------------------------------------------------------------------------
+// C11: what the receiving system does with a decoded remote envelope. The four strings become two references
+// (address and path normalised by internal/utils - trusted string functions, abstract here), the envelope handed
+// to the receiver's mailbox carries exactly the decoded system flag, THAT sender (so a Reply goes back to where the
+// message came from), THAT receiver and the decoded message, the mailbox is the one found for the receiver, and the
+// envelope is enqueued exactly once - or, when a reference is invalid, not at all and an error is returned.
+// (What the two references hold is stated at the findMailbox call, the first call after they are built: findMailbox's
+// frame is "anything allocated before the call", so the contract language cannot carry the fields across it; no
+// function of the package assigns Ref.address / Ref.path after NewRef.)
+//@ func utils.NormalizeAddress
+//@   trusted
+//@   ensures result.1 == normAddrOK(address) && (result.1 ==> result.0 == normAddr(address))
+//@ func utils.NormalizePath
+//@   trusted
+//@   ensures result.1 == normPathOK(path) && (result.1 ==> result.0 == normPath(path))
+//@ func NewRef
+//@   ensures (result.1 == nil) == (normAddrOK(address) && normPathOK(path))
+//@   ensures result.1 == nil ==> result.0 != nil && fresh(result.0) && result.0.address == normAddr(address) && result.0.path == normPath(path) && aval(result.0.cache) == nil
+//@   ensures result.1 != nil ==> result.0 == nil
+//@ func (*System).HandleRemotingEnvelop
+//@   ghostvar env any
+//@   callspec NewEnvelop requires arg0 == system && arg1 == iface(sender) && arg2 == iface(receiver) && arg3 == messageInstance
+//@   callspec NewEnvelop sets env = iface(result)
+//@   callspec findMailbox requires arg1 == receiver
+//@   callspec findMailbox requires sender.address == normAddr(senderAddr) && sender.path == normPath(senderPath) && receiver.address == normAddr(receiverAddr) && receiver.path == normPath(receiverPath) && sender != receiver
+//@   callspec Enqueue requires arg0 == env
+//@   requires ctxwf(s.Context) && s.options != nil && s.options.Context != nil && s.options.Logger != nil && regwf(s)
+//@   modifies anyold, gmap(enqn)
+//@   ensures  (result == nil) == (normAddrOK(senderAddr) && normPathOK(senderPath) && normAddrOK(receiverAddr) && normPathOK(receiverPath))
+//@   ensures  result == nil ==> gcount(enqn, 0) == old(gcount(enqn, 0)) + 1
+//@   ensures  result != nil ==> gcount(enqn, 0) == old(gcount(enqn, 0))
